@@ -145,6 +145,7 @@ def shards(tier, seed):
     sh += [("api", ep, full) for ep in ("list_identity", "discover", "module_info", "plc_info", "plc_info_micro800")]
     sh += [("pairwise", ep) for ep in ("parser", "module_info")]
     sh += [("api", ep, False, "debuglog") for ep in ("list_identity", "discover", "module_info", "plc_info")]
+    sh += [("api", ep, False, "python-O") for ep in ("list_identity", "discover", "module_info", "plc_info")] + [("codec", "rest", "python-O")]
     return sh
 
 
